@@ -1157,3 +1157,48 @@ class Scopes:
 
     def binding_of_pident(self, pident):
         return self.by_pident.get(id(pident))
+
+
+# --------------------------------------------------------------------------------------------
+# Boolean formulas (A11): a syntactic boolean expression as a function over its atoms
+# --------------------------------------------------------------------------------------------
+
+def bool_formula(e):
+    """-> (evaluate(valuation dict) -> bool, sorted atom texts). Atoms are the maximal sub-expressions that are not &&, ||, !."""
+    atoms = set()
+
+    def build(x):
+        x = strip(x)
+        k = x.get("k")
+        if k == "binary" and x["op"] in ("&&", "||"):
+            l, r = build(x["l"]), build(x["r"])
+            if x["op"] == "&&":
+                return lambda v: l(v) and r(v)
+            return lambda v: l(v) or r(v)
+        if k == "unary" and x["op"] == "!":
+            inner = build(x["e"])
+            return lambda v: not inner(v)
+        if k == "lit" and x.get("t") == "bool":
+            val = bool(x["v"])
+            return lambda v: val
+        text = src(x).replace(" ", "")
+        # `a != b` is the negation of the atom `a == b`
+        if k == "binary" and x["op"] == "!=":
+            text = "(" + src(x["l"]).replace(" ", "") + "==" + src(x["r"]).replace(" ", "") + ")"
+            atoms.add(text)
+            return lambda v, t=text: not v[t]
+        atoms.add(text)
+        return lambda v, t=text: v[t]
+
+    f = build(e)
+    return f, sorted(atoms)
+
+
+def implies(f, atoms, required_true):
+    """for every valuation: f => all atoms in required_true hold. Returns (ok, counter-example valuation)"""
+    import itertools
+    for bits in itertools.product([False, True], repeat=len(atoms)):
+        v = dict(zip(atoms, bits))
+        if f(v) and not all(v.get(a, False) for a in required_true):
+            return False, v
+    return True, None
